@@ -108,13 +108,18 @@ fn within(f: f64, bound: f64) -> bool {
     f.is_finite() && f.abs() <= bound * 1.0000000000000004
 }
 
-fn change_frequency_case(config: KalmanConfiguration) {
+/// `part`: 0 = whole input space; 1..=4 = case split on (estimator present, sign of the current frequency)
+fn change_frequency_case(config: KalmanConfiguration, part: u8) {
     let ft = crate::verif_root::gen::any_time();
     let ret = crate::verif_root::gen::any_time();
     kani::assume(ret >= ft);
     let cur = any_finite();
     kani::assume(within(cur, config.max_freq_offset));
     let has_inner: bool = kani::any();
+    if part != 0 {
+        kani::assume(has_inner == (part <= 2));
+        kani::assume((cur >= 0.0) == (part % 2 == 1));
+    }
     let mut f = mk(config, if has_inner { Some(any_inner(ft)) } else { None }, if kani::any() { Some(cur) } else { None });
     let had_freq = f.cur_frequency.is_some();
     let mut clock = CmdClock::any(ret);
@@ -132,28 +137,70 @@ fn change_frequency_case(config: KalmanConfiguration) {
     } else {
         assert!(clock.n_freq == 0 && clock.n_step == 0, "no command before the frequency was initialised");
     }
-    kani::cover!(had_freq && clock.last_freq == config.max_freq_offset, "clamped at the upper bound");
+    kani::cover!(had_freq && clock.last_freq.abs() == config.max_freq_offset, "clamped at a bound");
     kani::cover!(had_freq && clock.last_freq < 0.0, "negative command");
     kani::cover!(had_freq && clock.fail_freq, "failing clock");
 }
 
 
-// @harness c13_change_frequency
-// @props C13 C03:thorough
+// @harness c13_change_frequency_est_pos
+// @props C13:quick C03:quick
 // @tier quick
 // @stubbing yes
 // @timeout 2400
 // @mem 8
 // @functions KalmanFilter::change_frequency, clamp_adjustment, BaseFilter::freq_offset, BaseFilter::absorb_frequency_steer, InnerFilter::absorb_frequency_steer
-// @bounds default servo configuration (max_freq_offset 400 ppm); arbitrary non-NaN estimator state (offset, frequency, delay: any f64 incl. infinities), current frequency within the bound (one rounding), target any finite f64 (what steer / update / demobilize pass), clock that fails nondeterministically and returns a time not before the filter time
+// @bounds case split (the parts of c13_change_frequency cover the whole input space between them): estimator present, current frequency >= 0. default servo configuration (max_freq_offset 400 ppm); arbitrary non-NaN estimator state (offset, frequency, delay: any f64 incl. infinities), current frequency within the bound (one rounding), target any finite f64 (what steer / update / demobilize pass), clock that fails nondeterministically and returns a time not before the filter time
 // @assume InnerFilter::progress_filtertime replaced by an over-approximation (arbitrary new non-NaN state, filter time advanced); the covariance algebra is outside the claim
 #[kani::proof]
 #[kani::unwind(5)]
 #[kani::stub(InnerFilter::progress_filtertime, progress_filtertime_havoc)]
-fn c13_change_frequency() { change_frequency_case(KalmanConfiguration::default()) }
+fn c13_change_frequency_est_pos() { change_frequency_case(KalmanConfiguration::default(), 1) }
+
+// @harness c13_change_frequency_est_neg
+// @props C13:quick C03:quick
+// @tier quick
+// @stubbing yes
+// @timeout 2400
+// @mem 8
+// @functions KalmanFilter::change_frequency, clamp_adjustment, BaseFilter::freq_offset, BaseFilter::absorb_frequency_steer, InnerFilter::absorb_frequency_steer
+// @bounds case split (the parts of c13_change_frequency cover the whole input space between them): estimator present, current frequency < 0. default servo configuration (max_freq_offset 400 ppm); arbitrary non-NaN estimator state (offset, frequency, delay: any f64 incl. infinities), current frequency within the bound (one rounding), target any finite f64 (what steer / update / demobilize pass), clock that fails nondeterministically and returns a time not before the filter time
+// @assume InnerFilter::progress_filtertime replaced by an over-approximation (arbitrary new non-NaN state, filter time advanced); the covariance algebra is outside the claim
+#[kani::proof]
+#[kani::unwind(5)]
+#[kani::stub(InnerFilter::progress_filtertime, progress_filtertime_havoc)]
+fn c13_change_frequency_est_neg() { change_frequency_case(KalmanConfiguration::default(), 2) }
+
+// @harness c13_change_frequency_noest_pos
+// @props C13:quick C03:thorough
+// @tier quick
+// @stubbing yes
+// @timeout 2400
+// @mem 8
+// @functions KalmanFilter::change_frequency, clamp_adjustment, BaseFilter::freq_offset, BaseFilter::absorb_frequency_steer, InnerFilter::absorb_frequency_steer
+// @bounds case split (the parts of c13_change_frequency cover the whole input space between them): no estimator yet, current frequency >= 0. default servo configuration (max_freq_offset 400 ppm); arbitrary non-NaN estimator state (offset, frequency, delay: any f64 incl. infinities), current frequency within the bound (one rounding), target any finite f64 (what steer / update / demobilize pass), clock that fails nondeterministically and returns a time not before the filter time
+// @assume InnerFilter::progress_filtertime replaced by an over-approximation (arbitrary new non-NaN state, filter time advanced); the covariance algebra is outside the claim
+#[kani::proof]
+#[kani::unwind(5)]
+#[kani::stub(InnerFilter::progress_filtertime, progress_filtertime_havoc)]
+fn c13_change_frequency_noest_pos() { change_frequency_case(KalmanConfiguration::default(), 3) }
+
+// @harness c13_change_frequency_noest_neg
+// @props C13:quick C03:thorough
+// @tier quick
+// @stubbing yes
+// @timeout 2400
+// @mem 8
+// @functions KalmanFilter::change_frequency, clamp_adjustment, BaseFilter::freq_offset, BaseFilter::absorb_frequency_steer, InnerFilter::absorb_frequency_steer
+// @bounds case split (the parts of c13_change_frequency cover the whole input space between them): no estimator yet, current frequency < 0. default servo configuration (max_freq_offset 400 ppm); arbitrary non-NaN estimator state (offset, frequency, delay: any f64 incl. infinities), current frequency within the bound (one rounding), target any finite f64 (what steer / update / demobilize pass), clock that fails nondeterministically and returns a time not before the filter time
+// @assume InnerFilter::progress_filtertime replaced by an over-approximation (arbitrary new non-NaN state, filter time advanced); the covariance algebra is outside the claim
+#[kani::proof]
+#[kani::unwind(5)]
+#[kani::stub(InnerFilter::progress_filtertime, progress_filtertime_havoc)]
+fn c13_change_frequency_noest_neg() { change_frequency_case(KalmanConfiguration::default(), 4) }
 
 // @harness c13_change_frequency_any_config
-// @props C13 C03
+// @props C13:thorough C03:thorough
 // @tier thorough
 // @stubbing yes
 // @timeout 3600
@@ -164,10 +211,38 @@ fn c13_change_frequency() { change_frequency_case(KalmanConfiguration::default()
 #[kani::proof]
 #[kani::unwind(5)]
 #[kani::stub(InnerFilter::progress_filtertime, progress_filtertime_havoc)]
-fn c13_change_frequency_any_config() { change_frequency_case(any_config()) }
+fn c13_change_frequency_any_config() { change_frequency_case(any_config(), 0) }
+
+// @harness c13_steer_default_pos
+// @props C13:quick C03:thorough
+// @tier quick
+// @stubbing yes
+// @timeout 3600
+// @mem 14
+// @functions KalmanFilter::steer, KalmanFilter::step, KalmanFilter::change_frequency, Duration::from_seconds, BaseFilter::absorb_offset_steer
+// @bounds case split (parts _pos and _neg cover the whole input space): estimated offset >= 0; default max_freq_offset / max_steer. estimator offset any f64 with |offset| <= 10^9 s, frequency any finite f64, delay any f64 with |delay| <= 10^9 s, step threshold 1 ms, steer time 2 s, deadzone any value in [0, 4], failing clock
+// @assume InnerFilter::progress_filtertime replaced by progress_filtertime_offset_only: new offset arbitrary (non-NaN), frequency and delay unchanged (exact for a finite state), filter time advanced; otherwise as c13_change_frequency
+#[kani::proof]
+#[kani::unwind(5)]
+#[kani::stub(InnerFilter::progress_filtertime, progress_filtertime_offset_only)]
+fn c13_steer_default_pos() { steer_case(KalmanConfiguration::default(), 1) }
+
+// @harness c13_steer_default_neg
+// @props C13:quick C03:thorough
+// @tier quick
+// @stubbing yes
+// @timeout 3600
+// @mem 14
+// @functions KalmanFilter::steer, KalmanFilter::step, KalmanFilter::change_frequency, Duration::from_seconds, BaseFilter::absorb_offset_steer
+// @bounds case split (parts _pos and _neg cover the whole input space): estimated offset < 0; default max_freq_offset / max_steer. estimator offset any f64 with |offset| <= 10^9 s, frequency any finite f64, delay any f64 with |delay| <= 10^9 s, step threshold 1 ms, steer time 2 s, deadzone any value in [0, 4], failing clock
+// @assume InnerFilter::progress_filtertime replaced by progress_filtertime_offset_only: new offset arbitrary (non-NaN), frequency and delay unchanged (exact for a finite state), filter time advanced; otherwise as c13_change_frequency
+#[kani::proof]
+#[kani::unwind(5)]
+#[kani::stub(InnerFilter::progress_filtertime, progress_filtertime_offset_only)]
+fn c13_steer_default_neg() { steer_case(KalmanConfiguration::default(), 2) }
 
 // @harness c13_steer_and_step
-// @props C13 C03
+// @props C13:thorough C03:thorough
 // @tier thorough
 // @stubbing yes
 // @timeout 3600
@@ -178,8 +253,10 @@ fn c13_change_frequency_any_config() { change_frequency_case(any_config()) }
 #[kani::proof]
 #[kani::unwind(5)]
 #[kani::stub(InnerFilter::progress_filtertime, progress_filtertime_offset_only)]
-fn c13_steer_and_step() {
-    let mut config = any_config();
+fn c13_steer_and_step() { steer_case(any_config(), 0) }
+
+/// `part`: 0 = whole input space; 1 / 2 = case split on the sign of the estimated offset
+fn steer_case(mut config: KalmanConfiguration, part: u8) {
     // any non-negative deadzone: the deadzone shrinks the slew, it must never shrink a step
     config.deadzone = any_finite();
     kani::assume(config.deadzone >= 0.0 && config.deadzone <= 4.0);
@@ -192,6 +269,9 @@ fn c13_steer_and_step() {
     let inner = any_inner(ft);
     let error = inner.state.ventry(0);
     kani::assume(error.abs() <= 1.0e9);
+    if part != 0 {
+        kani::assume((error >= 0.0) == (part == 1));
+    }
     // the mean delay estimate is reported back as a Duration: keep it representable (finite estimator state)
     kani::assume(inner.state.ventry(2).abs() <= 1.0e9);
     // finite estimator state (the refined propagation stub is exact in frequency and delay only then)
@@ -210,21 +290,26 @@ fn c13_steer_and_step() {
         assert!(within(clock.last_freq, config.max_freq_offset), "C13: frequency command not finite or beyond the configured maximum");
         assert!(error.abs() < 1.0e-3 + 1.0e-12, "slewing although the offset exceeds the step threshold");
     }
-    kani::cover!(clock.n_step == 1 && error > 0.0, "positive offset stepped");
+    kani::cover!(clock.n_step == 1, "stepped");
     kani::cover!(clock.n_freq == 1, "slewed");
 }
 
-fn final_command(update: bool) {
-    let config = any_config();
+/// `part`: 0 = whole input space; 1 / 2 = case split on the sign of the current frequency
+fn final_command(update: bool, part: u8, config: KalmanConfiguration) {
     let ft = crate::verif_root::gen::any_time();
     let ret = crate::verif_root::gen::any_time();
     kani::assume(ret >= ft);
     let cur = any_finite();
     kani::assume(within(cur, config.max_freq_offset));
+    if part != 0 {
+        kani::assume((cur >= 0.0) == (part == 1));
+    }
     let mut inner = any_inner(ft);
     if update {
         // `update` reports the mean delay estimate back as a Duration: keep it representable
         inner.state = Vector::new_vector([inner.state.ventry(0), inner.state.ventry(1), 1.0e-6]);
+        // finite estimator state: the refined propagation stub (offset arbitrary, frequency and delay kept) is exact only then
+        kani::assume(inner.state.ventry(0).is_finite() && inner.state.ventry(1).is_finite());
     }
     let had = kani::any::<bool>();
     let mut f = mk(config, Some(inner), if had { Some(cur) } else { None });
@@ -243,36 +328,78 @@ fn final_command(update: bool) {
     kani::cover!(had, "final command issued");
 }
 
-// @harness c13_demobilize
-// @props C13 C08:thorough C03:thorough
+// @harness c13_demobilize_pos
+// @props C13:quick C08:thorough C03:quick
 // @tier quick
 // @stubbing yes
 // @timeout 1800
 // @mem 12
 // @functions KalmanFilter::demobilize, KalmanFilter::change_frequency, clamp_adjustment
-// @bounds as c13_change_frequency; the filter is consumed by the call
+// @bounds case split (parts _pos and _neg cover the whole input space): current frequency >= 0; default servo configuration. as c13_change_frequency; the filter is consumed by the call
 // @assume as c13_change_frequency
 #[kani::proof]
 #[kani::unwind(5)]
 #[kani::stub(InnerFilter::progress_filtertime, progress_filtertime_havoc)]
-fn c13_demobilize() { final_command(false) }
+fn c13_demobilize_pos() { final_command(false, 1, KalmanConfiguration::default()) }
 
-// @harness c13_update
-// @props C13 C03
+// @harness c13_demobilize_neg
+// @props C13:quick C08:thorough C03:quick
+// @tier quick
+// @stubbing yes
+// @timeout 1800
+// @mem 12
+// @functions KalmanFilter::demobilize, KalmanFilter::change_frequency, clamp_adjustment
+// @bounds case split (parts _pos and _neg cover the whole input space): current frequency < 0; default servo configuration. as c13_change_frequency; the filter is consumed by the call
+// @assume as c13_change_frequency
+#[kani::proof]
+#[kani::unwind(5)]
+#[kani::stub(InnerFilter::progress_filtertime, progress_filtertime_havoc)]
+fn c13_demobilize_neg() { final_command(false, 2, KalmanConfiguration::default()) }
+
+// @harness c13_demobilize_any_config
+// @props C13:thorough C03:thorough
+// @tier thorough
+// @stubbing yes
+// @timeout 1800
+// @mem 12
+// @functions KalmanFilter::demobilize, KalmanFilter::change_frequency, clamp_adjustment
+// @bounds as c13_demobilize_pos / _neg together, with symbolic max_freq_offset and max_steer (0, 10^6]
+// @assume as c13_change_frequency
+#[kani::proof]
+#[kani::unwind(5)]
+#[kani::stub(InnerFilter::progress_filtertime, progress_filtertime_havoc)]
+fn c13_demobilize_any_config() { final_command(false, 0, any_config()) }
+
+// @harness c13_update_pos
+// @props C13:thorough C03:thorough
 // @tier thorough
 // @stubbing yes
 // @timeout 3600
 // @mem 12
 // @functions KalmanFilter::update, KalmanFilter::change_frequency, Duration::from_seconds
-// @bounds as c13_change_frequency with a concrete mean-delay estimate (1 us)
-// @assume as c13_change_frequency
+// @bounds symbolic max_freq_offset / max_steer, finite estimator offset and frequency, concrete mean-delay estimate (1 us), current frequency >= 0 within the bound, failing clock (case split with c13_update_neg)
+// @assume InnerFilter::progress_filtertime replaced by progress_filtertime_offset_only (new offset arbitrary non-NaN, frequency and delay unchanged - exact for a finite state - filter time advanced)
 #[kani::proof]
 #[kani::unwind(5)]
-#[kani::stub(InnerFilter::progress_filtertime, progress_filtertime_havoc)]
-fn c13_update() { final_command(true) }
+#[kani::stub(InnerFilter::progress_filtertime, progress_filtertime_offset_only)]
+fn c13_update_pos() { final_command(true, 1, any_config()) }
+
+// @harness c13_update_neg
+// @props C13:thorough C03:thorough
+// @tier thorough
+// @stubbing yes
+// @timeout 3600
+// @mem 12
+// @functions KalmanFilter::update, KalmanFilter::change_frequency, Duration::from_seconds
+// @bounds as c13_update_pos with a current frequency < 0 (the two parts cover the whole input space)
+// @assume as c13_update_pos
+#[kani::proof]
+#[kani::unwind(5)]
+#[kani::stub(InnerFilter::progress_filtertime, progress_filtertime_offset_only)]
+fn c13_update_neg() { final_command(true, 2, any_config()) }
 
 // @harness c13_progress_filtertime_backwards
-// @props C13 C03
+// @props C13:quick C03:quick
 // @tier quick
 // @timeout 900
 // @functions InnerFilter::progress_filtertime, BaseFilter::absorb_frequency_steer
@@ -311,7 +438,7 @@ fn progress_filtertime_keep_zero(f: &mut InnerFilter, time: Time, _wander: f64, 
 }
 
 // @harness c08_kalman_peer_delay_only_never_steers
-// @props C08 C13:thorough C03:thorough
+// @props C08:quick C13:thorough C03:thorough
 // @tier quick
 // @stubbing yes
 // @timeout 1800
